@@ -831,6 +831,19 @@ Fixpoint h_returns (h : hS) (q : hreq) (rs : list hres) : Prop :=
   | r :: rs' => snd (h_call h q) = r /\ h_returns (fst (h_call h q)) q rs'
   end.
 
+(* the same, whatever the arguments of the requests are, as long as they satisfy P *)
+Fixpoint h_returns_any (P : hreq -> Prop) (h : hS) (rs : list hres) : Prop :=
+  match rs with
+  | [] => True
+  | r :: rs' => forall q, P q -> snd (h_call h q) = r /\ h_returns_any P (fst (h_call h q)) rs'
+  end.
+
+Lemma h_returns_any_one : forall (P : hreq -> Prop) q rs h, P q -> h_returns_any P h rs -> h_returns h q rs.
+Proof.
+  intros P q. induction rs as [|r rs IH]; intros h HP H; cbn [h_returns h_returns_any] in *; [exact I|].
+  destruct (H q HP) as [H1 H2]. split; [exact H1|]. apply IH; assumption.
+Qed.
+
 Section Loop.
 Variable L : cstate.
 Variable ci : nat.
@@ -914,4 +927,763 @@ Proof.
 Qed.
 End Loop.
 
+Definition disp_w (code : Z) (s : state) : state :=
+  if (code =? RC_OK)%Z || (code =? RC_DATA_OK)%Z then ack_ok s
+  else if (code =? RC_DATA_NEXT)%Z || (code =? RC_NEXT)%Z then s
+  else if (code =? RC_HOLD)%Z then enable_hold_state s
+  else ack_error s.
+Definition disp_r (code : Z) (s : state) : state :=
+  if (code =? RC_OK)%Z || (code =? RC_DATA_OK)%Z then ack_ok s
+  else if (code =? RC_DATA_NEXT)%Z || (code =? RC_NEXT)%Z then s
+  else if (code =? RC_HOLD)%Z then enable_hold_state s
+  else if (code =? RC_PRINT_CMD_LIST_OK)%Z then start_print_cmd_list D s
+  else ack_error s.
+
+Lemma disp_w_table : forall code s,
+  disp_w code s = match spec_action K_WRITE ATCMD code with
+                  | A_OK => ack_ok s | A_AGAIN => s | A_HOLD => enable_hold_state s
+                  | _ => ack_error s end.
+Proof.
+  intros. unfold disp_w, spec_action.
+  destruct (code =? RC_OK)%Z; cbn [orb]; [reflexivity|].
+  destruct (code =? RC_DATA_OK)%Z; [reflexivity|].
+  destruct (code =? RC_DATA_NEXT)%Z; cbn [orb]; [rewrite orb_true_r; reflexivity|].
+  rewrite orb_false_r.
+  destruct (code =? RC_NEXT)%Z; [reflexivity|].
+  destruct (code =? RC_HOLD)%Z; reflexivity.
+Qed.
+
+Lemma disp_r_table : forall code s,
+  disp_r code s = match spec_action K_RUN ATCMD code with
+                  | A_OK => ack_ok s | A_AGAIN => s | A_HOLD => enable_hold_state s
+                  | A_LIST => start_print_cmd_list D s
+                  | _ => ack_error s end.
+Proof.
+  intros. unfold disp_r, spec_action.
+  destruct (code =? RC_OK)%Z; cbn [orb]; [reflexivity|].
+  destruct (code =? RC_DATA_OK)%Z; [reflexivity|].
+  destruct (code =? RC_DATA_NEXT)%Z; cbn [orb]; [rewrite orb_true_r; reflexivity|].
+  rewrite orb_false_r.
+  destruct (code =? RC_NEXT)%Z; [reflexivity|].
+  destruct (code =? RC_HOLD)%Z; [reflexivity|].
+  destruct (code =? RC_PRINT_CMD_LIST_OK)%Z; reflexivity.
+Qed.
+
+Lemma spec_w_range : forall code,
+  spec_action K_WRITE ATCMD code = A_OK \/ spec_action K_WRITE ATCMD code = A_AGAIN \/
+  spec_action K_WRITE ATCMD code = A_HOLD \/ spec_action K_WRITE ATCMD code = A_ERROR.
+Proof.
+  intros. unfold spec_action.
+  destruct ((code =? RC_OK)%Z || (code =? RC_DATA_OK)%Z); [auto|].
+  destruct ((code =? RC_NEXT)%Z || (code =? RC_DATA_NEXT)%Z); [auto|].
+  destruct (code =? RC_HOLD)%Z; auto.
+Qed.
+Lemma spec_r_range : forall code,
+  spec_action K_RUN ATCMD code = A_OK \/ spec_action K_RUN ATCMD code = A_AGAIN \/
+  spec_action K_RUN ATCMD code = A_HOLD \/ spec_action K_RUN ATCMD code = A_LIST \/
+  spec_action K_RUN ATCMD code = A_ERROR.
+Proof.
+  intros. unfold spec_action.
+  destruct ((code =? RC_OK)%Z || (code =? RC_DATA_OK)%Z); [auto|].
+  destruct ((code =? RC_NEXT)%Z || (code =? RC_DATA_NEXT)%Z); [auto|].
+  destruct (code =? RC_HOLD)%Z; [auto|].
+  destruct (code =? RC_PRINT_CMD_LIST_OK)%Z; auto 6.
+Qed.
+
+Lemma ack_ok_state : forall s, k_state (k (ack_ok s)) = CS_FLUSH_WAIT.
+Proof. reflexivity. Qed.
+Lemma ack_error_state : forall s, k_state (k (ack_error s)) = CS_FLUSH_WAIT.
+Proof. reflexivity. Qed.
+Lemma hold_state : forall s, k_state (k (enable_hold_state s)) = CS_HOLD.
+Proof. reflexivity. Qed.
+Lemma list_state : forall s, k_state (k (start_print_cmd_list D s)) = CS_FLUSH_WAIT \/
+                             k_state (k (start_print_cmd_list D s)) = CS_PRINT_CMD.
+Proof. intros. unfold start_print_cmd_list. destruct (ncmds D =? 0); [left|right]; reflexivity. Qed.
+
+Definition wq (ci : nat) (s : state) : hreq :=
+  HWrite ci (firstn (S (k_length (k s))) (cbuf s)) (k_length (k s)) (k_index (k s)).
+
+Theorem C10_write_sequence : forall rs rn w ci,
+  k_state (k (st w)) = CS_WRITE_LOOP -> k_cmd (k (st w)) = Some ci ->
+  let q := HWrite ci (firstn (S (k_length (k (st w)))) (cbuf (st w)))
+                  (k_length (k (st w))) (k_index (k (st w))) in
+  h_returns (hs w) q (rs ++ [rn]) ->
+  (forall r, In r rs -> terminal (spec_action K_WRITE ATCMD (r_code r)) = false) ->
+  terminal (spec_action K_WRITE ATCMD (r_code rn)) = true ->
+  let n := length rs in
+  (forall m, m <= n ->
+     k_state (k (st (iter m cstep w))) = CS_WRITE_LOOP /\
+     calls_of (tr (iter m cstep w)) =
+       rev (map (fun r => (q, r_code r)) (firstn m rs)) ++ calls_of (tr w)) /\
+  let wn := iter n cstep w in
+  let w1 := fst (call_h wn q) in
+  snd (call_h wn q) = rn /\
+  st (iter (S n) cstep w) =
+    match spec_action K_WRITE ATCMD (r_code rn) with
+    | A_OK => ack_ok (st w1) | A_AGAIN => st w1 | A_HOLD => enable_hold_state (st w1)
+    | _ => ack_error (st w1) end /\
+  k_state (k (st (iter (S n) cstep w))) <> CS_WRITE_LOOP /\
+  calls_of (tr (iter (S n) cstep w)) =
+    rev (map (fun r => (q, r_code r)) (rs ++ [rn])) ++ calls_of (tr w).
+Proof.
+  intros rs rn w ci HL Hc q Hret Hnt Ht n.
+  assert (LS := loop_sequence CS_WRITE_LOOP ci (wq ci) disp_w K_WRITE).
+  assert (H1 : forall s s', kframe s s' -> wq ci s' = wq ci s).
+  { intros s s' Hk. unfold wq.
+    rewrite (kframe_k_length _ _ Hk), (kframe_k_index _ _ Hk), (kframe_cbuf _ _ Hk). reflexivity. }
+  assert (H2 : forall w0, k_state (k (st w0)) = CS_WRITE_LOOP -> k_cmd (k (st w0)) = Some ci ->
+    cmd_service w0 = (upd_st (disp_w (r_code (snd (call_h w0 (wq ci (st w0))))))
+                             (fst (call_h w0 (wq ci (st w0)))), ST_BUSY)).
+  { intros w0 G1 G2. unfold Fsm.cmd_service. rewrite G1. unfold Fsm.process_write_loop.
+    change (g_cmd ATCMD (st w0)) with (k_cmd (k (st w0))). rewrite G2.
+    unfold wq. destruct (call_h w0 _) as [w1' r']. reflexivity. }
+  assert (H3 : forall code s, terminal (spec_action K_WRITE ATCMD code) = false -> disp_w code s = s).
+  { intros code s G. rewrite disp_w_table.
+    destruct (spec_w_range code) as [E|[E|[E|E]]]; rewrite E in *; try discriminate G. reflexivity. }
+  assert (H4 : forall code s, terminal (spec_action K_WRITE ATCMD code) = true ->
+                              k_state (k (disp_w code s)) <> CS_WRITE_LOOP).
+  { intros code s G. rewrite disp_w_table.
+    destruct (spec_w_range code) as [E|[E|[E|E]]]; rewrite E in *; try discriminate G;
+      first [rewrite ack_ok_state|rewrite ack_error_state|rewrite hold_state]; discriminate. }
+  specialize (LS H1 H2 H3 H4 rs rn w HL Hc Hret Hnt Ht).
+  destruct LS as (L1 & L2 & L3 & L4 & L5).
+  subst n q. unfold wq in *. cbv beta in *.
+  split; [|split; [|split; [|split]]].
+  - intros m Hm. destruct (L1 m Hm) as (J1 & _ & _ & J4). split; assumption.
+  - exact L2.
+  - rewrite L3. apply disp_w_table.
+  - exact L4.
+  - exact L5.
+Qed.
+
+Theorem C10_run_sequence : forall rs rn w ci,
+  k_state (k (st w)) = CS_RUN_LOOP -> k_cmd (k (st w)) = Some ci ->
+  let q := HRun ci in
+  h_returns (hs w) q (rs ++ [rn]) ->
+  (forall r, In r rs -> terminal (spec_action K_RUN ATCMD (r_code r)) = false) ->
+  terminal (spec_action K_RUN ATCMD (r_code rn)) = true ->
+  let n := length rs in
+  (forall m, m <= n ->
+     k_state (k (st (iter m cstep w))) = CS_RUN_LOOP /\
+     calls_of (tr (iter m cstep w)) =
+       rev (map (fun r => (q, r_code r)) (firstn m rs)) ++ calls_of (tr w)) /\
+  let wn := iter n cstep w in
+  let w1 := fst (call_h wn q) in
+  snd (call_h wn q) = rn /\
+  st (iter (S n) cstep w) =
+    match spec_action K_RUN ATCMD (r_code rn) with
+    | A_OK => ack_ok (st w1) | A_AGAIN => st w1 | A_HOLD => enable_hold_state (st w1)
+    | A_LIST => start_print_cmd_list D (st w1)
+    | _ => ack_error (st w1) end /\
+  k_state (k (st (iter (S n) cstep w))) <> CS_RUN_LOOP /\
+  calls_of (tr (iter (S n) cstep w)) =
+    rev (map (fun r => (q, r_code r)) (rs ++ [rn])) ++ calls_of (tr w).
+Proof.
+  intros rs rn w ci HL Hc q Hret Hnt Ht n.
+  assert (LS := loop_sequence CS_RUN_LOOP ci (fun _ => HRun ci) disp_r K_RUN).
+  assert (H1 : forall s s' : state, kframe s s' -> HRun ci = HRun ci) by reflexivity.
+  assert (H2 : forall w0, k_state (k (st w0)) = CS_RUN_LOOP -> k_cmd (k (st w0)) = Some ci ->
+    cmd_service w0 = (upd_st (disp_r (r_code (snd (call_h w0 (HRun ci)))))
+                             (fst (call_h w0 (HRun ci))), ST_BUSY)).
+  { intros w0 G1 G2. unfold Fsm.cmd_service. rewrite G1. unfold Fsm.process_run_loop.
+    change (g_cmd ATCMD (st w0)) with (k_cmd (k (st w0))). rewrite G2.
+    destruct (call_h w0 _) as [w1' r']. reflexivity. }
+  assert (H3 : forall code s, terminal (spec_action K_RUN ATCMD code) = false -> disp_r code s = s).
+  { intros code s G. rewrite disp_r_table.
+    destruct (spec_r_range code) as [E|[E|[E|[E|E]]]]; rewrite E in *; try discriminate G.
+    reflexivity. }
+  assert (H4 : forall code s, terminal (spec_action K_RUN ATCMD code) = true ->
+                              k_state (k (disp_r code s)) <> CS_RUN_LOOP).
+  { intros code s G. rewrite disp_r_table.
+    destruct (spec_r_range code) as [E|[E|[E|[E|E]]]]; rewrite E in *; try discriminate G;
+      try (first [rewrite ack_ok_state|rewrite ack_error_state|rewrite hold_state]; discriminate).
+    destruct (list_state s) as [E'|E']; rewrite E'; discriminate. }
+  specialize (LS H1 H2 H3 H4 rs rn w HL Hc Hret Hnt Ht).
+  destruct LS as (L1 & L2 & L3 & L4 & L5).
+  subst n q. unfold wq in *. cbv beta in *.
+  split; [|split; [|split; [|split]]].
+  - intros m Hm. destruct (L1 m Hm) as (J1 & _ & _ & J4). split; assumption.
+  - exact L2.
+  - rewrite L3. apply disp_r_table.
+  - exact L4.
+  - exact L5.
+Qed.
+
+(* ------------------------------------------------------------------ *)
+(* 6. read handler of the command machine: sequences of any length,     *)
+(*    flushes taken as completed                                        *)
+(* ------------------------------------------------------------------ *)
+
+Lemma text_of_app_zero : forall t r, text_of (t ++ 0%N :: r) = text_of t.
+Proof.
+  induction t as [|a t IH]; intros r; cbn [app text_of]; [reflexivity|].
+  destruct (a =? 0)%N; [reflexivity|]. f_equal. apply IH.
+Qed.
+
+(* what the edit of a read/test handler does to the command machine's buffer *)
+Definition edit_text (bsz : nat) (old : list N) (e : option (list N)) : list N :=
+  match e with
+  | Some t => if length t <? bsz then text_of t else old
+  | None => old
+  end.
+
+Lemma apply_edit_c : forall e s,
+  let s' := apply_edit ATCMD e s in
+  set_k_position 0 (k s') = set_k_position 0 (k s) /\ length (cbuf s') = length (cbuf s) /\
+  text_of (cbuf s') = edit_text (asz s) (text_of (cbuf s)) e.
+Proof.
+  intros e s. cbv zeta. destruct e as [t|]; [|repeat split].
+  unfold apply_edit, edit_text, asz. change (g_bsz ATCMD s) with (length (cbuf s)).
+  destruct (length t <? length (cbuf s)) eqn:E; [|repeat split].
+  apply Nat.ltb_lt in E.
+  unfold get_cur. rewrite cur_store_list_fits
+    by (cbn [cu_buf g_buf]; rewrite app_length; cbn [length]; lia).
+  unfold cur_set_pos, put_cur. cbn [cu_buf cu_pos cu_fault g_buf g_pos setg_buf setg_pos].
+  cbn [firstn app Nat.add]. repeat split.
+  - cbn [cbuf setk_position set_cbuf set_k]. rewrite !app_length, skipn_length.
+    cbn [length]. lia.
+  - cbn [cbuf setk_position set_cbuf set_k]. rewrite <- app_assoc. cbn [app].
+    apply text_of_app_zero.
+Qed.
+
+Lemma apply_edit_c_k_state : forall e s, k_state (k (apply_edit ATCMD e s)) = k_state (k s).
+Proof. intros. destruct (apply_edit_c e s) as (H & _). apply (f_equal k_state) in H. exact H. Qed.
+Lemma apply_edit_c_k_cmd : forall e s, k_cmd (k (apply_edit ATCMD e s)) = k_cmd (k s).
+Proof. intros. destruct (apply_edit_c e s) as (H & _). apply (f_equal k_cmd) in H. exact H. Qed.
+
+Lemma firstn_S_nth : forall (l : list N) n x, nth_error l n = Some x -> firstn (S n) l = firstn n l ++ [x].
+Proof.
+  induction l as [|y l IH]; intros n x H; destruct n; cbn [nth_error] in H; try discriminate.
+  - injection H as H. subst. reflexivity.
+  - cbn [firstn app]. f_equal. apply IH. exact H.
+Qed.
+
+Lemma spec_read_range : forall code,
+  let a := spec_action K_READ ATCMD code in
+  a = A_OK \/ a = A_EMIT_OK \/ a = A_EMIT_AGAIN \/ a = A_REFORMAT_AGAIN \/ a = A_HOLD \/
+  a = A_RELEASE_OK \/ a = A_RELEASE_ERROR \/ a = A_ERROR.
+Proof.
+  intros. unfold a, spec_action.
+  destruct (code =? RC_OK)%Z; [auto|].
+  destruct (code =? RC_DATA_OK)%Z; [auto|].
+  destruct (code =? RC_DATA_NEXT)%Z; [auto|].
+  destruct (code =? RC_NEXT)%Z; [auto 6|].
+  destruct (code =? RC_HOLD)%Z; [auto 6|].
+  destruct (code =? RC_HOLD_EXIT_OK)%Z; [auto 8|].
+  destruct (code =? RC_HOLD_EXIT_ERROR)%Z; [auto 8|].
+  destruct (code =? RC_PRINT_CMD_LIST_OK)%Z; auto 10.
+Qed.
+
+(* take a started emission of a unit as completed: collect the text of the buffer, continue in
+   the after-state with one service step (the flush engine itself is C11) *)
+Definition rd_settle (w : world) : world * list (list N) :=
+  if cstate_beq (k_state (k (st w))) CS_FLUSH_WAIT &&
+     negb (cstate_beq (k_wafter (k (st w))) CS_AFTER_RESET)
+  then (cstep (upd_st (fun s => setk_state (k_wafter (k s)) s) w), [text_of (cbuf (st w))])
+  else (w, []).
+(* one handler call and its automatic consequences *)
+Definition rd_macro (w : world) : world * list (list N) := rd_settle (cstep w).
+Fixpoint rd_run (n : nat) (w : world) : world * list (list N) :=
+  match n with
+  | O => (w, [])
+  | S n' => let (w1, u1) := rd_macro w in let (w2, u2) := rd_run n' w1 in (w2, u1 ++ u2)
+  end.
+
+Definition is_hread (ci : nat) (q : hreq) : Prop :=
+  match q with HRead ATCMD ci' _ _ _ => ci' = ci | _ => False end.
+
+(* the request the read loop makes in state s *)
+Definition rq (ci : nat) (s : state) : hreq :=
+  HRead ATCMD ci (firstn (S (k_position (k s))) (cbuf s)) (k_position (k s)) (length (cbuf s)).
+
+(* the unit a result emits (if its code emits), given the text the buffer held before the call *)
+Definition unit_of (bsz : nat) (old : list N) (r : hres) : list (list N) :=
+  match spec_action K_READ ATCMD (r_code r) with
+  | A_EMIT_OK | A_EMIT_AGAIN => [edit_text bsz old (r_edit r)]
+  | _ => []
+  end.
+Fixpoint units_of (bsz : nat) (old hdr : list N) (rs : list hres) : list (list N) :=
+  match rs with
+  | [] => []
+  | r :: rs' => unit_of bsz old r ++ units_of bsz hdr hdr rs'
+  end.
+
+Section ReadSeq.
+Variable ci : nat.
+Variable c : cmd.
+Hypothesis Hat : cmd_at D ci = Some c.
+Hypothesis Hhr : c_hread c = true.
+Hypothesis Hnv : vars_access_possible c RO = false.
+Hypothesis Hnz : forall x, In x (c_name c) -> x <> 0%N.
+
+Let hdr := c_name c ++ [ch_EQ].
+
+(* the loop state at a handler call *)
+Definition RL (w : world) : Prop :=
+  k_state (k (st w)) = CS_READ_LOOP /\ k_cmd (k (st w)) = Some ci /\
+  length (c_name c) + 1 < asz (st w).
+
+Lemma cstep_read : forall w, RL w ->
+  let q := rq ci (st w) in
+  let w1 := fst (call_h w q) in let r := snd (call_h w q) in
+  let se := apply_edit ATCMD (r_edit r) (st w1) in
+  hs (cstep w) = hs w1 /\ tr (cstep w) = tr w1 /\
+  st (cstep w) = match spec_action K_READ ATCMD (r_code r) with
+            | A_OK => ack_ok se
+            | A_ERROR => ack_error se
+            | A_EMIT_OK => start_flush_c CS_AFTER_OK se
+            | A_EMIT_AGAIN => start_flush_c CS_AFTER_FMT_READ se
+            | A_REFORMAT_AGAIN => start_processing_format_read_args D ATCMD se
+            | A_HOLD => enable_hold_state se
+            | A_RELEASE_OK => ack_ok (fst (hold_exit se ST_OK))
+            | A_RELEASE_ERROR => ack_error (fst (hold_exit se ST_ERROR))
+            | A_LIST => start_print_cmd_list D se
+            | A_AGAIN => se
+            end.
+Proof.
+  intros w (HL & Hc & _). cbv zeta.
+  destruct (C10_rt_code true ATCMD w ci Hc HL) as (w' & E & H1 & _ & _ & H4 & H5).
+  unfold cstep, Fsm.cmd_service. rewrite HL.
+  cbv zeta in E. unfold rq.
+  change (g_pos ATCMD (st w)) with (k_position (k (st w))) in *.
+  change (g_buf ATCMD (st w)) with (cbuf (st w)) in *.
+  rewrite E. cbn [fst]. repeat split; assumption.
+Qed.
+
+(* the state when the buffer has been re-formatted from a state s of the command machine *)
+Lemma reformat_c : forall s, k_cmd (k s) = Some ci -> length (c_name c) + 1 < asz s ->
+  let s' := start_processing_format_read_args D ATCMD s in
+  k_state (k s') = CS_READ_LOOP /\ k_cmd (k s') = Some ci /\ asz s' = asz s /\
+  k_position (k s') = length hdr /\ firstn (S (length hdr)) (cbuf s') = hdr ++ [0%N] /\
+  text_of (cbuf s') = hdr.
+Proof.
+  intros s Hc Hfit. cbv zeta.
+  destruct (C10_reformat_read_fresh ATCMD s ci c Hc Hat Hfit) as (B & B1 & B2 & B3 & B4 & E).
+  cbv zeta in E. rewrite Hnv, Hhr in E. cbn [negb] in E. rewrite E.
+  assert (Lh : length hdr = length (c_name c) + 1) by (unfold hdr; rewrite app_length; reflexivity).
+  cbn [set_loop_state setg_pos setg_buf]. repeat split.
+  - exact Hc.
+  - exact B1.
+  - rewrite Lh. reflexivity.
+  - cbn [cbuf setk_state setk_position set_cbuf set_k]. rewrite Lh.
+    rewrite (firstn_S_nth B _ 0%N B3), B2. reflexivity.
+  - apply B4. exact Hnz.
+Qed.
+
+Definition fresh (w : world) : Prop :=
+  k_position (k (st w)) = length hdr /\ firstn (S (length hdr)) (cbuf (st w)) = hdr ++ [0%N] /\
+  text_of (cbuf (st w)) = hdr.
+
+Lemma se_facts : forall w, RL w ->
+  let q := rq ci (st w) in
+  let w1 := fst (call_h w q) in let r := snd (call_h w q) in
+  let se := apply_edit ATCMD (r_edit r) (st w1) in
+  k_cmd (k se) = Some ci /\ asz se = asz (st w) /\
+  text_of (cbuf se) = edit_text (asz (st w)) (text_of (cbuf (st w))) (r_edit r).
+Proof.
+  intros w (HL & Hc & Hfit). cbv zeta.
+  pose proof (call_h_kframe w (rq ci (st w))) as Hk.
+  set (w1 := fst (call_h w (rq ci (st w)))) in *.
+  set (r := snd (call_h w (rq ci (st w)))).
+  destruct (apply_edit_c (r_edit r) (st w1)) as (E1 & E2 & E3). cbv zeta in *.
+  repeat split.
+  - rewrite apply_edit_c_k_cmd, (kframe_k_cmd _ _ Hk). exact Hc.
+  - unfold asz in *. rewrite E2, (kframe_cbuf _ _ Hk). reflexivity.
+  - rewrite E3. unfold asz. rewrite (kframe_cbuf _ _ Hk). reflexivity.
+Qed.
+
+Lemma rd_macro_nonterminal : forall w, RL w ->
+  let q := rq ci (st w) in
+  let w1 := fst (call_h w q) in let r := snd (call_h w q) in
+  terminal (spec_action K_READ ATCMD (r_code r)) = false ->
+  RL (fst (rd_macro w)) /\ fresh (fst (rd_macro w)) /\
+  asz (st (fst (rd_macro w))) = asz (st w) /\
+  hs (fst (rd_macro w)) = hs w1 /\
+  calls_of (tr (fst (rd_macro w))) = (q, r_code r) :: calls_of (tr w) /\
+  snd (rd_macro w) = unit_of (asz (st w)) (text_of (cbuf (st w))) r.
+Proof.
+  intros w HRL. cbv zeta. intros Hnt.
+  destruct (cstep_read w HRL) as (S1 & S2 & S3). cbv zeta in S1, S2, S3.
+  destruct (se_facts w HRL) as (F1 & F2 & F3). cbv zeta in F1, F2, F3.
+  pose proof (call_h_calls w (rq ci (st w))) as Hcalls.
+  destruct HRL as (HL & Hc & Hfit).
+  set (w1 := fst (call_h w (rq ci (st w)))) in *.
+  set (r := snd (call_h w (rq ci (st w)))) in *.
+  set (se := apply_edit ATCMD (r_edit r) (st w1)) in *.
+  unfold rd_macro, rd_settle, unit_of. fold r.
+  destruct (spec_read_range (r_code r)) as [E|[E|[E|[E|[E|[E|[E|E]]]]]]]; cbv zeta in E;
+    rewrite E in *; try discriminate Hnt.
+  - (* DATA_NEXT: emit, then re-format *)
+    rewrite S3. cbn [start_flush_c k_state k_wafter k setk_state setk_wafter setk_wstate
+                     setk_wbuf setk_position set_k set_k_state set_k_wafter cstate_beq andb negb fst snd].
+    match goal with |- context [cstep ?ww] => set (w2 := ww) end.
+    assert (K2 : k_state (k (st w2)) = CS_AFTER_FMT_READ).
+    { unfold w2. cbn [Fsm.upd_st Fsm.set_st Fsm.st]. rewrite S3. reflexivity. }
+    destruct (C10_continuation_c w2) as (_ & Cr & _). specialize (Cr K2).
+    change (cstep w2) with (fst (cmd_service w2)). rewrite Cr. cbn [fst Fsm.upd_st Fsm.set_st Fsm.st Fsm.hs Fsm.tr].
+    assert (Est : st w2 = setk_state CS_AFTER_FMT_READ (start_flush_c CS_AFTER_FMT_READ se)).
+    { unfold w2. cbn [Fsm.upd_st Fsm.set_st Fsm.st]. rewrite S3. reflexivity. }
+    rewrite Est.
+    destruct (reformat_c (setk_state CS_AFTER_FMT_READ (start_flush_c CS_AFTER_FMT_READ se)))
+      as (R1 & R2 & R3 & R4 & R5 & R6); [exact F1|unfold asz in *; exact (eq_ind_r (fun n => _ < n) Hfit F2)|].
+    cbv zeta in *.
+    assert (A : asz (start_processing_format_read_args D ATCMD
+                  (setk_state CS_AFTER_FMT_READ (start_flush_c CS_AFTER_FMT_READ se))) = asz (st w)).
+    { rewrite R3. exact F2. }
+    split; [|split; [|split; [|split; [|split]]]].
+    + unfold RL. cbn [Fsm.upd_st Fsm.set_st Fsm.st]. rewrite Est.
+      repeat split; try assumption. rewrite A. exact Hfit.
+    + unfold fresh. cbn [Fsm.upd_st Fsm.set_st Fsm.st]. rewrite Est. repeat split; assumption.
+    + exact A.
+    + unfold w2. cbn [Fsm.upd_st Fsm.set_st Fsm.hs]. exact S1.
+    + unfold w2. cbn [Fsm.upd_st Fsm.set_st Fsm.tr]. rewrite S2. exact Hcalls.
+    + f_equal. exact F3.
+  - (* NEXT: re-format at once *)
+    destruct (reformat_c se) as (R1 & R2 & R3 & R4 & R5 & R6);
+      [exact F1|unfold asz in *; exact (eq_ind_r (fun n => _ < n) Hfit F2)|].
+    cbv zeta in *.
+    rewrite S3, R1. cbn [cstate_beq andb fst snd].
+    assert (A : asz (st (cstep w)) = asz (st w)) by (rewrite S3, R3; exact F2).
+    split; [|split; [|split; [|split; [|split]]]].
+    + unfold RL. repeat split; rewrite ?S3; try assumption. rewrite <- S3, A. exact Hfit.
+    + unfold fresh. repeat split; rewrite S3; assumption.
+    + exact A.
+    + exact S1.
+    + rewrite S2. exact Hcalls.
+    + reflexivity.
+Qed.
+
+Definition rd_final (a : action) (se : state) : state :=
+  match a with
+  | A_OK => ack_ok se
+  | A_ERROR => ack_error se
+  | A_EMIT_OK => ack_ok (setk_state CS_AFTER_OK (start_flush_c CS_AFTER_OK se))
+  | A_HOLD => enable_hold_state se
+  | A_RELEASE_OK => ack_ok (fst (hold_exit se ST_OK))
+  | A_RELEASE_ERROR => ack_error (fst (hold_exit se ST_ERROR))
+  | _ => se
+  end.
+
+Lemma rd_macro_terminal : forall w, RL w ->
+  let q := rq ci (st w) in
+  let w1 := fst (call_h w q) in let r := snd (call_h w q) in
+  let se := apply_edit ATCMD (r_edit r) (st w1) in
+  terminal (spec_action K_READ ATCMD (r_code r)) = true ->
+  st (fst (rd_macro w)) = rd_final (spec_action K_READ ATCMD (r_code r)) se /\
+  hs (fst (rd_macro w)) = hs w1 /\
+  calls_of (tr (fst (rd_macro w))) = (q, r_code r) :: calls_of (tr w) /\
+  snd (rd_macro w) = unit_of (asz (st w)) (text_of (cbuf (st w))) r.
+Proof.
+  intros w HRL. cbv zeta. intros Ht.
+  destruct (cstep_read w HRL) as (S1 & S2 & S3). cbv zeta in S1, S2, S3.
+  destruct (se_facts w HRL) as (F1 & F2 & F3). cbv zeta in F1, F2, F3.
+  pose proof (call_h_calls w (rq ci (st w))) as Hcalls.
+  destruct HRL as (HL & Hc & Hfit).
+  set (w1 := fst (call_h w (rq ci (st w)))) in *.
+  set (r := snd (call_h w (rq ci (st w)))) in *.
+  set (se := apply_edit ATCMD (r_edit r) (st w1)) in *.
+  unfold rd_macro, rd_settle, unit_of. fold r.
+  destruct (spec_read_range (r_code r)) as [E|[E|[E|[E|[E|[E|[E|E]]]]]]]; cbv zeta in E;
+    rewrite E in *; try discriminate Ht; cbn [rd_final].
+  - rewrite S3. cbn [ack_ok start_flush_c k_state k_wafter k setk_state setk_wafter setk_wstate
+                     setk_wbuf setk_position set_k set_k_state set_k_wafter set_gS set_cbuf
+                     cstate_beq andb negb fst snd].
+    repeat split; [exact S3|exact S1|rewrite S2; exact Hcalls].
+  - rewrite S3. cbn [start_flush_c k_state k_wafter k setk_state setk_wafter setk_wstate
+                     setk_wbuf setk_position set_k set_k_state set_k_wafter cstate_beq andb negb fst snd].
+    match goal with |- context [cstep ?ww] => set (w2 := ww) end.
+    assert (Est : st w2 = setk_state CS_AFTER_OK (start_flush_c CS_AFTER_OK se)).
+    { unfold w2. cbn [Fsm.upd_st Fsm.set_st Fsm.st]. rewrite S3. reflexivity. }
+    assert (K2 : k_state (k (st w2)) = CS_AFTER_OK) by (rewrite Est; reflexivity).
+    destruct (C10_continuation_c w2) as (Cr & _). specialize (Cr K2).
+    change (cstep w2) with (fst (cmd_service w2)). rewrite Cr.
+    cbn [fst Fsm.upd_st Fsm.set_st Fsm.st Fsm.hs Fsm.tr]. rewrite Est.
+    repeat split.
+    + unfold w2. cbn [Fsm.upd_st Fsm.set_st Fsm.hs]. exact S1.
+    + unfold w2. cbn [Fsm.upd_st Fsm.set_st Fsm.tr]. rewrite S2. exact Hcalls.
+    + f_equal. exact F3.
+  - rewrite S3. cbn [enable_hold_state k_state k setk_state setk_hold setk_hold_exit set_k
+                     set_k_state set_k_hold set_k_hold_exit cstate_beq andb fst snd].
+    repeat split; [exact S3|exact S1|rewrite S2; exact Hcalls].
+  - rewrite S3. cbn [ack_ok start_flush_c k_state k_wafter k setk_state setk_wafter setk_wstate
+                     setk_wbuf setk_position set_k set_k_state set_k_wafter set_gS set_cbuf
+                     cstate_beq andb negb fst snd].
+    repeat split; [exact S3|exact S1|rewrite S2; exact Hcalls].
+  - rewrite S3. cbn [ack_error start_flush_c k_state k_wafter k setk_state setk_wafter setk_wstate
+                     setk_wbuf setk_position set_k set_k_state set_k_wafter set_gS set_cbuf
+                     cstate_beq andb negb fst snd].
+    repeat split; [exact S3|exact S1|rewrite S2; exact Hcalls].
+  - rewrite S3. cbn [ack_error start_flush_c k_state k_wafter k setk_state setk_wafter setk_wstate
+                     setk_wbuf setk_position set_k set_k_state set_k_wafter set_gS set_cbuf
+                     cstate_beq andb negb fst snd].
+    repeat split; [exact S3|exact S1|rewrite S2; exact Hcalls].
+Qed.
+
+Lemma rd_run_S_fst : forall n w, fst (rd_run (S n) w) = fst (rd_run n (fst (rd_macro w))).
+Proof.
+  intros. cbn [rd_run]. destruct (rd_macro w) as [w1 u1]. cbn [fst].
+  destruct (rd_run n w1). reflexivity.
+Qed.
+Lemma rd_run_S_snd : forall n w,
+  snd (rd_run (S n) w) = snd (rd_macro w) ++ snd (rd_run n (fst (rd_macro w))).
+Proof.
+  intros. cbn [rd_run]. destruct (rd_macro w) as [w1 u1]. cbn [fst snd].
+  destruct (rd_run n w1). reflexivity.
+Qed.
+
+Lemma rq_fresh : forall w, fresh w -> rq ci (st w) = HRead ATCMD ci (hdr ++ [0%N]) (length hdr) (asz (st w)).
+Proof. intros w (P1 & P2 & _). unfold rq. rewrite P1, P2. reflexivity. Qed.
+
+Lemma read_sequence_ind : forall rs rn w,
+  RL w ->
+  h_returns_any (is_hread ci) (hs w) (rs ++ [rn]) ->
+  (forall r, In r rs -> terminal (spec_action K_READ ATCMD (r_code r)) = false) ->
+  terminal (spec_action K_READ ATCMD (r_code rn)) = true ->
+  RL (fst (rd_run (length rs) w)) /\
+  snd (call_h (fst (rd_run (length rs) w)) (rq ci (st (fst (rd_run (length rs) w))))) = rn /\
+  st (fst (rd_run (S (length rs)) w)) =
+    rd_final (spec_action K_READ ATCMD (r_code rn))
+      (apply_edit ATCMD (r_edit rn)
+         (st (fst (call_h (fst (rd_run (length rs) w))
+                          (rq ci (st (fst (rd_run (length rs) w)))))))) /\
+  calls_of (tr (fst (rd_run (S (length rs)) w))) =
+    rev (combine (rq ci (st w) ::
+                  repeat (HRead ATCMD ci (hdr ++ [0%N]) (length hdr) (asz (st w))) (length rs))
+                 (map r_code (rs ++ [rn]))) ++ calls_of (tr w) /\
+  snd (rd_run (S (length rs)) w) =
+    units_of (asz (st w)) (text_of (cbuf (st w))) hdr (rs ++ [rn]).
+Proof.
+  induction rs as [|r rs IH]; intros rn w HRL Hret Hnt Ht.
+  - cbn [length app] in *.
+    cbn [h_returns_any] in Hret.
+    destruct (Hret (rq ci (st w)) eq_refl) as [Hr _].
+    assert (Hsnd : snd (call_h w (rq ci (st w))) = rn) by (rewrite call_h_res; exact Hr).
+    pose proof (rd_macro_terminal w HRL) as T. cbv zeta in T. rewrite Hsnd in T.
+    destruct (T Ht) as (T1 & T2 & T3 & T4).
+    rewrite rd_run_S_fst, rd_run_S_snd. cbn [rd_run fst snd]. rewrite app_nil_r.
+    repeat split; try assumption.
+    + apply HRL.
+    + apply HRL.
+    + apply HRL.
+    + cbn [units_of]. rewrite app_nil_r. exact T4.
+  - cbn [app h_returns_any] in Hret.
+    destruct (Hret (rq ci (st w)) eq_refl) as [Hr Hret'].
+    assert (Hsnd : snd (call_h w (rq ci (st w))) = r) by (rewrite call_h_res; exact Hr).
+    assert (Hnr : terminal (spec_action K_READ ATCMD (r_code r)) = false)
+      by (apply Hnt; left; reflexivity).
+    pose proof (rd_macro_nonterminal w HRL) as T. cbv zeta in T. rewrite Hsnd in T.
+    destruct (T Hnr) as (T1 & T2 & T3 & T4 & T5 & T6).
+    set (w' := fst (rd_macro w)) in *.
+    assert (Hret'' : h_returns_any (is_hread ci) (hs w') (rs ++ [rn])).
+    { rewrite T4, call_h_hs. exact Hret'. }
+    assert (Hnt' : forall r0, In r0 rs -> terminal (spec_action K_READ ATCMD (r_code r0)) = false)
+      by (intros r0 Hin; apply Hnt; right; exact Hin).
+    destruct (IH rn w' T1 Hret'' Hnt' Ht) as (I1 & I2 & I3 & I4 & I5).
+    cbn [length].
+    rewrite (rd_run_S_fst (S (length rs)) w), (rd_run_S_fst (length rs) w),
+            (rd_run_S_snd (S (length rs)) w).
+    fold w'.
+    split; [exact I1|]. split; [exact I2|]. split; [exact I3|]. split.
+    + rewrite I4, T5. rewrite (rq_fresh w' T2), T3.
+      cbn [app map repeat combine rev]. rewrite <- !app_assoc. reflexivity.
+    + rewrite I5, T6, T3. destruct T2 as (_ & _ & T2). rewrite T2.
+      cbn [app units_of]. reflexivity.
+Qed.
+
+End ReadSeq.
+
+Theorem C10_read_sequence : forall rs rn w ci c,
+  k_state (k (st w)) = CS_READ_LOOP -> k_cmd (k (st w)) = Some ci -> cmd_at D ci = Some c ->
+  c_hread c = true -> vars_access_possible c RO = false ->
+  length (c_name c) + 1 < asz (st w) -> (forall x, In x (c_name c) -> x <> 0%N) ->
+  h_returns_any (is_hread ci) (hs w) (rs ++ [rn]) ->
+  (forall r, In r rs -> terminal (spec_action K_READ ATCMD (r_code r)) = false) ->
+  terminal (spec_action K_READ ATCMD (r_code rn)) = true ->
+  let n := length rs in
+  let hdr := c_name c ++ [ch_EQ] in
+  let wn := fst (rd_run n w) in
+  let qn := rq ci (st wn) in
+  let se := apply_edit ATCMD (r_edit rn) (st (fst (call_h wn qn))) in
+  k_state (k (st wn)) = CS_READ_LOOP /\
+  snd (call_h wn qn) = rn /\
+  st (fst (rd_run (S n) w)) =
+    match spec_action K_READ ATCMD (r_code rn) with
+    | A_OK => ack_ok se
+    | A_ERROR => ack_error se
+    | A_EMIT_OK => ack_ok (setk_state CS_AFTER_OK (start_flush_c CS_AFTER_OK se))
+    | A_HOLD => enable_hold_state se
+    | A_RELEASE_OK => ack_ok (fst (hold_exit se ST_OK))
+    | A_RELEASE_ERROR => ack_error (fst (hold_exit se ST_ERROR))
+    | _ => se
+    end /\
+  calls_of (tr (fst (rd_run (S n) w))) =
+    rev (combine (rq ci (st w) ::
+                  repeat (HRead ATCMD ci (hdr ++ [0%N]) (length hdr) (asz (st w))) n)
+                 (map r_code (rs ++ [rn]))) ++ calls_of (tr w) /\
+  snd (rd_run (S n) w) = units_of (asz (st w)) (text_of (cbuf (st w))) hdr (rs ++ [rn]).
+Proof.
+  intros rs rn w ci c HL Hc Hat Hhr Hnv Hfit Hnz Hret Hnt Ht. cbv zeta.
+  assert (HRL : RL ci c w) by (repeat split; assumption).
+  destruct (read_sequence_ind ci c Hat Hhr Hnv Hnz rs rn w HRL Hret Hnt Ht)
+    as (I1 & I2 & I3 & I4 & I5).
+  split; [apply I1|]. split; [exact I2|]. split; [exact I3|]. split; [exact I4|exact I5].
+Qed.
+
+(* the result codes: text, one started result (ghost counter gS), flush towards the reset *)
+Theorem C10_ack_shape : forall s,
+  cbuf (ack_ok s) = strncpy_buf (asz s) txt_OK /\ cbuf (ack_error s) = strncpy_buf (asz s) txt_ERROR /\
+  k_state (k (ack_ok s)) = CS_FLUSH_WAIT /\ k_state (k (ack_error s)) = CS_FLUSH_WAIT /\
+  k_wafter (k (ack_ok s)) = CS_AFTER_RESET /\ k_wafter (k (ack_error s)) = CS_AFTER_RESET /\
+  gS (ack_ok s) = S (gS s) /\ gS (ack_error s) = S (gS s).
+Proof. intros. repeat split. Qed.
+
+Lemma h_returns_any_weaken : forall (P P' : hreq -> Prop), (forall q, P q -> P' q) ->
+  forall rs h, h_returns_any P' h rs -> h_returns_any P h rs.
+Proof.
+  intros P P' HPP. induction rs as [|r rs IH]; intros h H; cbn [h_returns_any] in *; [exact I|].
+  intros q Hq. destruct (H q (HPP q Hq)) as [H1 H2]. split; [exact H1|]. apply IH. exact H2.
+Qed.
+
 End C10.
+
+(* ------------------------------------------------------------------ *)
+(* 5b. the same on the scripted handler environment of Script.v:        *)
+(*     "the handler returns c1..cn" is a statement about its script     *)
+(* ------------------------------------------------------------------ *)
+
+(* the results still to be delivered for a key *)
+Fixpoint script_of (h : shs) (key : hkey) : list hres :=
+  match h with
+  | [] => []
+  | (k0, sc) :: r => if key_eqb k0 key then sc else script_of r key
+  end.
+
+Lemma s_call_script : forall h q x sc, script_of h (key_of q) = x :: sc ->
+  snd (s_call h q) = x /\ script_of (fst (s_call h q)) (key_of q) = sc.
+Proof.
+  induction h as [|[k0 s0] r IH]; intros q x sc H; cbn [script_of] in H; [discriminate|].
+  cbn [s_call]. destruct (key_eqb k0 (key_of q)) eqn:E.
+  - subst s0. cbn [fst snd script_of]. rewrite E. split; reflexivity.
+  - specialize (IH q x sc H). destruct (s_call r q) as [r' x']. cbn [fst snd] in *.
+    cbn [script_of]. rewrite E. exact IH.
+Qed.
+
+Lemma scripted_returns : forall key rs rest h, script_of h key = rs ++ rest ->
+  h_returns_any shs s_call (fun q => key_of q = key) h rs.
+Proof.
+  intros key. induction rs as [|r rs IH]; intros rest h H; cbn [h_returns_any]; [exact I|].
+  intros q Hq. subst key. cbn [app] in H.
+  destruct (s_call_script h q r (rs ++ rest) H) as [H1 H2].
+  split; [exact H1|]. apply (IH rest). exact H2.
+Qed.
+
+Section Scripted.
+Variable D : desc.
+Local Notation st := (Fsm.st sio smu shs).
+Local Notation hs := (Fsm.hs sio smu shs).
+Local Notation tr := (Fsm.tr sio smu shs).
+Local Notation call_h := (Fsm.call_h D sio smu shs s_lock s_unlock s_call).
+Local Notation cstep := (cstep D sio smu shs s_read s_write s_lock s_unlock s_call).
+
+Theorem C10_write_sequence_scripted : forall rs rn rest (w : sworld) ci,
+  k_state (k (st w)) = CS_WRITE_LOOP -> k_cmd (k (st w)) = Some ci ->
+  script_of (hs w) (0, ci, 0) = rs ++ rn :: rest ->
+  (forall r, In r rs -> terminal (spec_action K_WRITE ATCMD (r_code r)) = false) ->
+  terminal (spec_action K_WRITE ATCMD (r_code rn)) = true ->
+  let q := HWrite ci (firstn (S (k_length (k (st w)))) (cbuf (st w)))
+                  (k_length (k (st w))) (k_index (k (st w))) in
+  let n := length rs in
+  (forall m, m <= n ->
+     k_state (k (st (iter m cstep w))) = CS_WRITE_LOOP /\
+     calls_of (tr (iter m cstep w)) =
+       rev (map (fun r => (q, r_code r)) (firstn m rs)) ++ calls_of (tr w)) /\
+  let wn := iter n cstep w in
+  let w1 := fst (call_h wn q) in
+  snd (call_h wn q) = rn /\
+  st (iter (S n) cstep w) =
+    match spec_action K_WRITE ATCMD (r_code rn) with
+    | A_OK => ack_ok (st w1) | A_AGAIN => st w1 | A_HOLD => enable_hold_state (st w1)
+    | _ => ack_error (st w1) end /\
+  k_state (k (st (iter (S n) cstep w))) <> CS_WRITE_LOOP /\
+  calls_of (tr (iter (S n) cstep w)) =
+    rev (map (fun r => (q, r_code r)) (rs ++ [rn])) ++ calls_of (tr w).
+Proof.
+  intros rs rn rest w ci HL Hc Hs Hnt Ht q.
+  apply (C10_write_sequence D sio smu shs s_read s_write s_lock s_unlock s_call rs rn w ci HL Hc);
+    try assumption.
+  apply (h_returns_any_one shs s_call (fun q0 => key_of q0 = (0, ci, 0))); [reflexivity|].
+  apply (scripted_returns (0, ci, 0) (rs ++ [rn]) rest). rewrite <- app_assoc. exact Hs.
+Qed.
+
+Theorem C10_run_sequence_scripted : forall rs rn rest (w : sworld) ci,
+  k_state (k (st w)) = CS_RUN_LOOP -> k_cmd (k (st w)) = Some ci ->
+  script_of (hs w) (2, ci, 0) = rs ++ rn :: rest ->
+  (forall r, In r rs -> terminal (spec_action K_RUN ATCMD (r_code r)) = false) ->
+  terminal (spec_action K_RUN ATCMD (r_code rn)) = true ->
+  let q := HRun ci in
+  let n := length rs in
+  (forall m, m <= n ->
+     k_state (k (st (iter m cstep w))) = CS_RUN_LOOP /\
+     calls_of (tr (iter m cstep w)) =
+       rev (map (fun r => (q, r_code r)) (firstn m rs)) ++ calls_of (tr w)) /\
+  let wn := iter n cstep w in
+  let w1 := fst (call_h wn q) in
+  snd (call_h wn q) = rn /\
+  st (iter (S n) cstep w) =
+    match spec_action K_RUN ATCMD (r_code rn) with
+    | A_OK => ack_ok (st w1) | A_AGAIN => st w1 | A_HOLD => enable_hold_state (st w1)
+    | A_LIST => start_print_cmd_list D (st w1)
+    | _ => ack_error (st w1) end /\
+  k_state (k (st (iter (S n) cstep w))) <> CS_RUN_LOOP /\
+  calls_of (tr (iter (S n) cstep w)) =
+    rev (map (fun r => (q, r_code r)) (rs ++ [rn])) ++ calls_of (tr w).
+Proof.
+  intros rs rn rest w ci HL Hc Hs Hnt Ht q.
+  apply (C10_run_sequence D sio smu shs s_read s_write s_lock s_unlock s_call rs rn w ci HL Hc);
+    try assumption.
+  apply (h_returns_any_one shs s_call (fun q0 => key_of q0 = (2, ci, 0))); [reflexivity|].
+  apply (scripted_returns (2, ci, 0) (rs ++ [rn]) rest). rewrite <- app_assoc. exact Hs.
+Qed.
+
+Local Notation rd_run := (rd_run D sio smu shs s_read s_write s_lock s_unlock s_call).
+
+Theorem C10_read_sequence_scripted : forall rs rn rest (w : sworld) ci c,
+  k_state (k (st w)) = CS_READ_LOOP -> k_cmd (k (st w)) = Some ci -> cmd_at D ci = Some c ->
+  c_hread c = true -> vars_access_possible c RO = false ->
+  length (c_name c) + 1 < asz (st w) -> (forall x, In x (c_name c) -> x <> 0%N) ->
+  script_of (hs w) (1, ci, 0) = rs ++ rn :: rest ->
+  (forall r, In r rs -> terminal (spec_action K_READ ATCMD (r_code r)) = false) ->
+  terminal (spec_action K_READ ATCMD (r_code rn)) = true ->
+  let n := length rs in
+  let hdr := c_name c ++ [ch_EQ] in
+  let wn := fst (rd_run n w) in
+  let qn := rq ci (st wn) in
+  let se := apply_edit ATCMD (r_edit rn) (st (fst (call_h wn qn))) in
+  k_state (k (st wn)) = CS_READ_LOOP /\
+  snd (call_h wn qn) = rn /\
+  st (fst (rd_run (S n) w)) =
+    match spec_action K_READ ATCMD (r_code rn) with
+    | A_OK => ack_ok se
+    | A_ERROR => ack_error se
+    | A_EMIT_OK => ack_ok (setk_state CS_AFTER_OK (start_flush_c CS_AFTER_OK se))
+    | A_HOLD => enable_hold_state se
+    | A_RELEASE_OK => ack_ok (fst (hold_exit se ST_OK))
+    | A_RELEASE_ERROR => ack_error (fst (hold_exit se ST_ERROR))
+    | _ => se
+    end /\
+  calls_of (tr (fst (rd_run (S n) w))) =
+    rev (combine (rq ci (st w) ::
+                  repeat (HRead ATCMD ci (hdr ++ [0%N]) (length hdr) (asz (st w))) n)
+                 (map r_code (rs ++ [rn]))) ++ calls_of (tr w) /\
+  snd (rd_run (S n) w) = units_of (asz (st w)) (text_of (cbuf (st w))) hdr (rs ++ [rn]).
+Proof.
+  intros rs rn rest w ci c HL Hc Hat Hhr Hnv Hfit Hnz Hs Hnt Ht.
+  apply (C10_read_sequence D sio smu shs s_read s_write s_lock s_unlock s_call rs rn w ci c);
+    try assumption.
+  apply (h_returns_any_weaken shs s_call (is_hread ci) (fun q0 => key_of q0 = (1, ci, 0))).
+  - intros q Hq. destruct q; try contradiction. destruct f; try contradiction.
+    cbn [is_hread] in Hq. subst. reflexivity.
+  - apply (scripted_returns (1, ci, 0) (rs ++ [rn]) rest). rewrite <- app_assoc. exact Hs.
+Qed.
+
+End Scripted.
